@@ -25,7 +25,18 @@ def run(ctx):
         runs.monitor_batch(ctx, PID, ctx.size(250, 3000), force=FORCE),
         # NaN is a legal fitness (ordered as worst): a stopped deme must stay frozen there too
         runs.nan_monitor_batch(ctx, PID, ctx.size(60, 600)),
+        # demes above the leaves stopped by their LSC, local searches sprouted from them one metaepoch later,
+        # a different objective on every level: nothing a child does may reach back into its stopped parent
+        runs.monitor_batch(ctx, PID, ctx.size(40, 400), salt=83, name="traced-runs-monitor-C06(local children of stopped demes, one objective per level)", force=_stopped_parents),
     ]
+
+
+def _stopped_parents(rng):
+    from . import c10
+
+    f = c10._just_finished(rng)
+    f.update({"shared_problem": False, "level_shift": True, "cutoff": None})
+    return f
 
 
 def search(ctx, broken):
